@@ -111,9 +111,9 @@ def run(repo, chk):
     # a guarded index must not be re-read after its check (shared with C01.R1: pending operands are protected)
     if chk.__class__.__name__ == 'Check':
         chk.rule('C04.A9', 'checked values are the used values: an index / operand is not re-read from a mutable location after its '
-                           'guard, and held registers are not clobbered between guard and use (shared with C01.R1)')
+                           'guard, held registers are not clobbered between guard and use, and word-wide results are only computed into word cells (shared with C01.R1/R2)')
         from . import c01
-        c01.run(repo, Remap(chk, {'C01.R1': 'C04.A9'}))
+        c01.run(repo, Remap(chk, {'C01.R1': 'C04.A9', 'C01.R2': 'C04.A9'}))
 
     # ---------------- A2 -------------------------------------------------------------
     for armname in ('ArrayLiteral', 'ArrayInitializer'):
@@ -159,6 +159,17 @@ def run(repo, chk):
                        'loaded from a slot of whatever frame defeat happened in) - shared with C02.T2')
     from . import c02
     c02.run(repo, Remap(chk, {'C02.T2': 'C04.A8'}))
+
+    # ---------------- A10 global arrays ----------------------------------------------------
+    if chk.__class__.__name__ == 'Check':
+        chk.rule('C04.A10', 'global arrays: the length word the index guards compare against is the validated unsigned length that '
+                            'sized the reserved storage (a negative constant length must not survive as a length literal) - '
+                            'shared with C13.B3')
+        from . import c13
+
+        def global_arrays(construct):
+            return 'C04.A10' if construct.startswith(('make_global', 'add_global_array')) else None
+        c13.run(repo, Remap(chk, {'C13.B3': global_arrays}))
 
     # ---------------- A4 scale agreement ---------------------------------------------------
     _scale(repo, chk, gf)
